@@ -612,6 +612,15 @@ pub fn gen_module(cs: &mut Cs, mode: ModMode, max_insts: usize) -> GenModule {
             out.truncate(max_insts);
         }
     }
+    if gen.edge_ids && !out.is_empty() && cs.below(4) == 0 {
+        // a run of identical instructions (same ids, same operands)
+        let at = cs.below(out.len());
+        let reps = 1 + cs.below(4);
+        let x = out[at].clone();
+        for _ in 0..reps {
+            out.insert(at, x.clone());
+        }
+    }
     let mut bound = match cs.below(4) {
         0 => cs.u32(),
         _ => gen.next_id.max(gen.bound),
